@@ -432,6 +432,10 @@ func schemaVersions(s synm.Schema) []*version.Version {
 		return []*version.Version{drive.V74}
 	case "5":
 		return []*version.Version{drive.V56}
+	case "<=7.2":
+		return []*version.Version{drive.V72, drive.V(7, 0)}
+	case "7.3+":
+		return []*version.Version{drive.V74, drive.V(7, 3)}
 	}
 	return []*version.Version{drive.V74, drive.V56}
 }
